@@ -32,6 +32,8 @@ CONSTANTS Base, Count,        \* fixed window b, c
           OsFail,             \* TRUE: records are handed to the file in one write call each, which the operating system may cut short
           Gz,                 \* the archive pattern ends in .gz: the final step of a rotation compresses instead of renaming
           MaxOverlap,         \* reconfigurations: a successor appender built while its predecessor is alive
+          DirObst,            \* TRUE: the obstacle "the directory of the archives cannot be reached" is explored (it is a symbolic
+                              \* link whose target has gone away: an unmounted volume, a moved directory)
           ActFull,            \* TRUE: the active path is a name that cannot be written (a device or file system without
                               \* space): it opens, it is empty, and every write to it fails with "no space left"
           BufFloor,           \* whole units that fit into the 1 KiB BufWriter (2 for 400-byte units, 64 and more for small ones)
@@ -103,7 +105,8 @@ OldStream(S, i) == IF i < Base THEN <<>> ELSE (IF i \in S THEN <<OldRec(i)>> ELS
 Init ==
   /\ \E p \in (IF ActFull THEN {0} ELSE PreSizes), S \in PreArch :
        /\ disk = [act |-> IF ActFull THEN Full ELSE IF p < 0 THEN Absent ELSE IF p = 0 THEN File(<<>>) ELSE File(<<[id |-> 0, sz |-> p]>>),
-                  arch |-> [i \in Idx |-> IF i \in S THEN File(<<OldRec(i)>>) ELSE Absent]]
+                  arch |-> [i \in Idx |-> IF i \in S THEN File(<<OldRec(i)>>) ELSE Absent],
+                  gone |-> FALSE]      \* gone: the archives are all still there, but their directory cannot be reached
        /\ W = OldStream(S, Base + Count) \o (IF p > 0 THEN <<[id |-> 0, sz |-> p]>> ELSE <<>>)
        /\ refAct = IF p > 0 THEN <<[id |-> 0, sz |-> p]>> ELSE <<>>
        /\ hist = IF Hist THEN <<[op |-> "pre", sz |-> p, full |-> ActFull, arch |-> [i \in Idx |-> i \in S]]>> ELSE <<>>
@@ -194,6 +197,8 @@ RotStep ==
           ELSE /\ disk' = IF Roller = "noop" THEN disk ELSE [disk EXCEPT !.act = Absent]
                /\ pc' = after
                /\ UNCHANGED <<fault, res, ri, hist>>
+     ELSE IF disk.gone          \* the roller begins by making sure the directory exists: that fails, nothing has moved
+     THEN Fail /\ UNCHANGED <<disk, ri, fault>>
      ELSE IF ri >= Base
      THEN IF fault.k = "shift" /\ fault.i = ri
           THEN fault' = NoFault /\ Fail /\ UNCHANGED <<disk, ri>>
@@ -332,6 +337,10 @@ Obstruct ==
   /\ \/ \E x \in Window : /\ disk.arch[x] = Absent
                           /\ disk' = [disk EXCEPT !.arch[x] = Dir]
                           /\ hist' = Log([op |-> "obstruct", i |-> x, kind |-> "dir"])
+     \* the directory of the archives goes out of reach
+     \/ /\ DirObst /\ ~disk.gone
+        /\ disk' = [disk EXCEPT !.gone = TRUE]
+        /\ hist' = Log([op |-> "obstruct", i |-> Base, kind |-> "nodir"])
      \* a name that cannot be written at the newest index: only a compressing final step writes there
      \/ /\ Gz /\ nObst = 0 /\ disk.arch[Base] = Absent
         /\ disk' = [disk EXCEPT !.arch[Base] = Full]
@@ -340,9 +349,11 @@ Obstruct ==
   /\ UNCHANGED <<writer, pc, cur, ri, after, used, W, acked, nextId, fault, nFaults, nCrash, nRestart, nEnc, nOverlap, ref, refAct, rolls, res>>
 Unobstruct ==
   /\ pc = "idle" /\ IsWindow
-  /\ \E x \in Idx : /\ disk.arch[x] \in {Dir, Full}
-                    /\ disk' = [disk EXCEPT !.arch[x] = Absent]
-                    /\ hist' = Log([op |-> "unobstruct", i |-> x])
+  /\ \/ \E x \in Idx : /\ disk.arch[x] \in {Dir, Full}
+                       /\ disk' = [disk EXCEPT !.arch[x] = Absent]
+                       /\ hist' = Log([op |-> "unobstruct", i |-> x])
+     \/ /\ disk.gone /\ disk' = [disk EXCEPT !.gone = FALSE]
+        /\ hist' = Log([op |-> "unobstruct", i |-> Base, kind |-> "nodir"])
   /\ UNCHANGED <<writer, pc, cur, ri, after, used, W, acked, nextId, fault, nFaults, nCrash, nRestart, nObst, nEnc, nOverlap, ref, refAct, rolls, res>>
 
 \* process death at one of the points a harness can pin down: before a roller step, after the
